@@ -111,6 +111,7 @@ structure World where
   node : Node
   /-- conflict notices received per session (for `RESOLVE`) -/
   notices : List (Sid × List Bytes) := []
+  lastDump : List String := []
 
 def recordNotices (w : World) (evs : List Ev) : World :=
   evs.foldl (fun w e => match e with
@@ -200,8 +201,18 @@ partial def loop (h : IO.FS.Stream) (out : IO.FS.Stream) (w : World) : IO Unit :
   else
     let (w', outs) := step w l
     out.putStrLn s!"> {l}"
-    for o in outs do out.putStrLn o
-    loop h out w'
+    -- dump lines (prefix "D ") are replaced by "D =" when identical to the previous dump
+    let dump := outs.filter (·.startsWith "D ")
+    let rest := outs.filter (fun o => !o.startsWith "D ")
+    for o in rest do out.putStrLn o
+    if dump.isEmpty then
+      loop h out w'
+    else if dump == w'.lastDump && !l.startsWith "RESET" then
+      out.putStrLn "D ="
+      loop h out w'
+    else
+      for o in dump do out.putStrLn o
+      loop h out { w' with lastDump := dump }
 
 def main : IO Unit := do
   let stdin ← IO.getStdin
